@@ -18,15 +18,13 @@ fn d(v: i64) -> Decimal {
 
 /// Arbitrary summary satisfying the invariant for ghosts (n, s, q); returns (summary, low, high).
 fn any_summary(n_max: u8, x_max: i8) -> (DataSetSummary, u8, i64, i64) {
-    let n: u8 = kani::any();
-    kani::assume(n <= n_max);
-    let s: i16 = kani::any();
-    let q: u16 = kani::any();
-    let (s, q) = (s as i64, q as i64);
+    let n = any_u8_lt(n_max + 1);
     let xm = x_max as i64;
-    kani::assume(s.abs() <= xm * n as i64);
-    kani::assume(q <= xm * xm * n as i64);
-    kani::assume((n as i64) * q >= s * s);
+    let s = any_int_in(-xm * n_max as i64, xm * n_max as i64);
+    let q = any_int_in(0, xm * xm * n_max as i64);
+    assume(s.abs() <= xm * n as i64);
+    assume(q <= xm * xm * n as i64);
+    assume((n as i64) * q >= s * s);
     if n == 0 {
         return (DataSetSummary::default(), 0, 0, 0);
     }
@@ -36,8 +34,8 @@ fn any_summary(n_max: u8, x_max: i8) -> (DataSetSummary, u8, i64, i64) {
     let variance = m / nn;
     let low = dec_i(4);
     let high = dec_i(4);
-    kani::assume(low <= mean && mean <= high);
-    kani::assume(low >= d(-xm) && high <= d(xm));
+    assume(low <= mean && mean <= high);
+    assume(low >= d(-xm) && high <= d(xm));
     let summary = DataSetSummary {
         count: nn,
         sum: d(s),
@@ -68,8 +66,7 @@ fn check_invariant(sum: &DataSetSummary, n: i64, s: i64, q: i64) {
 fn step(n_max: u8, x_max: i8) {
     let (mut summary, n, s, q) = any_summary(n_max, x_max);
     let (low0, high0, activated0) = (summary.dispersion.range.low, summary.dispersion.range.high, summary.dispersion.range.activated);
-    let x: i8 = kani::any();
-    kani::assume(x >= -x_max && x <= x_max);
+    let x = any_i8_in(-x_max, x_max);
     let xv = d(x as i64);
     summary.update(xv);
     check_invariant(&summary, n as i64 + 1, s + x as i64, q + (x as i64) * (x as i64));
@@ -98,8 +95,7 @@ proof! {
 proof! {
     #[kani::unwind(8)]
     fn c17_q_three_values_two_orders() {
-        let xs: [i8; 3] = [kani::any(), kani::any(), kani::any()];
-        kani::assume(xs[0] >= -3 && xs[0] <= 3 && xs[1] >= -3 && xs[1] <= 3 && xs[2] >= -3 && xs[2] <= 3);
+        let xs: [i8; 3] = [any_i8_in(-3, 3), any_i8_in(-3, 3), any_i8_in(-3, 3)];
         let mut a = DataSetSummary::default();
         let mut b = DataSetSummary::default();
         a.update(d(xs[0] as i64)); a.update(d(xs[1] as i64)); a.update(d(xs[2] as i64));
